@@ -1,5 +1,6 @@
 import SqlgrepModel.Model.Token
 import SqlgrepModel.Model.ParseLit
+import SqlgrepModel.Model.DecFloat
 /-
 The tokenizer of `src/parsing/tokenizer.rs` (`tokenize`) as the character fold it is, and
 `TokenLocation::extract_near`.
@@ -194,13 +195,19 @@ def flushIdent (o : Oracles) (st : St) (w : List Char) : St :=
     else if lw = wFalse then st.add .fls
     else st.add (.ident w)
 
-/-- after the number loop: `f64::from_str` / `i64::from_str`, error located at `state.location()` -/
+/-- after the number loop: `f64::from_str` / `i64::from_str`, error located at `state.location()`.
+`f64::from_str`: a shipped fact (`Oracles.fparse`, kept as a cross-check of the Lean function against the real
+one) or, when the case ships none, `DecFloat.parseF64`. -/
 def flushNumber (o : Oracles) (st : St) (w : List Char) (hasDot : Bool) : R :=
   if hasDot then
     match o.fparse w with
     | .bits b => .run (st.add (.float b))
     | .err => .fail ⟨st.line, st.col⟩ .floatConvert
-    | .missing => .missing w
+    | .missing =>
+      -- no shipped fact: `f64::from_str` as computed by `Model/DecFloat.lean`
+      match DecFloat.parseF64 w with
+      | some b => .run (st.add (.float b))
+      | none => .fail ⟨st.line, st.col⟩ .floatConvert
   else
     match Lit.parseI64 (w.map Char.toNat) with
     | some i => .run (st.add (.int i))
